@@ -204,6 +204,25 @@ func c01Rel(x *mc.Exec) {
 		Rels: []RelD{{"one", true, "u", "back"}, {"many", false, "u", ""}, {"two", true, "u", ""}, {"One", true, "u", ""}}}
 	u := TypeD{Name: "u", Rels: []RelD{{"back", false, "t", "one"}}}
 	schema := BuildSchema([]TypeD{d, u}, []bool{soft, softU})
+	fromType := "t"
+	if soft {
+		// a hand-declared one-way relationship may leave FromType empty, or stale after its type was
+		// renamed: relationship data is asked for under the resource's type name all the same
+		// (not a dimension of its own: it follows the other choices so that the three values meet
+		// every to-one value and every to-many length)
+		oi := 0
+		for i, o := range ones {
+			if o == one {
+				oi = i
+			}
+		}
+		fromType = []string{"t", "", "formername"}[(oi+len(many))%3]
+		for _, n := range []string{"many", "two", "One"} {
+			r := schema.Types[0].Rels[n]
+			r.FromType = fromType
+			schema.Types[0].Rels[n] = r
+		}
+	}
 	res := schema.Types[0].New()
 	res.Set("id", id)
 	res.Set("one", one)
@@ -212,7 +231,7 @@ func c01Rel(x *mc.Exec) {
 	res.Set("s", "lower")
 	res.Set("S", "UPPER")
 	res.Set("One", "upper-"+one)
-	desc := fmt.Sprintf("%s id=%q one=%q two=%q many=%v other=%s", implName(soft), id, one, two, many, implName(softU))
+	desc := fmt.Sprintf("%s id=%q one=%q two=%q many=%v other=%s one-way FromType=%q", implName(soft), id, one, two, many, implName(softU), fromType)
 	x.Render(desc)
 	x.R.Mark("nontrivial", mc.Hash(desc))
 	x.R.Sample("rel", desc)
